@@ -322,6 +322,10 @@ def located(text: str, err: str):
                 src = view[n - 1].strip()
                 if src and src in shown:  # the whole line, as a line of its own
                     return None
+                if not src and view is lines:
+                    # the named line consists of white space only (e.g. a lone form feed): there is no visible text
+                    # that could be shown; naming the line is all that can be demanded
+                    return None
     # act phase: reported by phase and actor, without line numbers
     if '[act]' in err:
         act = [l.strip() for l in _act_source_lines(lines) if l.strip()]
